@@ -269,6 +269,17 @@ def run_seq(res: Result, ctx: Ctx, qi: int, pl: str, fo: str, srcdir: Path, othe
     res.transitions += 4
     for kind, sig, msg in check(r1, stub2, r2, case):
         res.violate(Violation(ID, kind, "second-apply:" + sig, case, "second application on the result of the first: " + msg + f"\n--- first result ---\n{r1[:500]}\n--- second result ---\n{r2[:600]}"))
+    # the SAME stub applied again to its own result (nothing is left to annotate): nothing may move to module level
+    if not other_name:
+        try:
+            r3 = apply_stub_using_libcst(stub=stub1, source=r1, overwrite_existing_annotations=False, confine_new_imports_in_type_checking_block=True)
+        except Exception as e:  # noqa: BLE001
+            res.violate(Violation(ID, "apply-failed", type(e).__name__, dict(case, stub="same-stub-applied-again"), f"re-applying the stub raised {type(e).__name__}: {str(e)[:300]}"))
+            r3 = None
+        if r3 is not None:
+            res.transitions += 2
+            for kind, sig, msg in check(r1, stub1, r3, dict(case, stub="same-stub-applied-again")):
+                res.violate(Violation(ID, kind, "re-apply:" + sig, dict(case, stub="same-stub-applied-again"), "the same stub applied again to its own result: " + msg + f"\n--- first result ---\n{r1[:500]}\n--- result of re-applying ---\n{r3[:600]}"))
     res.oblige("saw:second-apply", True)
     del sys.modules[modname]
 
